@@ -103,3 +103,65 @@ Example C20_tcp_tls_concrete_example :
       [false; true; false; true; false; false; false; false];
       [false; true; false; false; false; false; false; true] ].
 Proof. exact c20_example. Qed.
+
+(* ---------------------------------------------------------------- ALL THREE protocols concrete: http_step := the
+   packet-level HTTP analyzer model (Model/HttpGlue.v http_ustep over Model/HttpAnalyzer.v; parsers = any pure
+   functions returning the request / response text that becomes g_sig, e.g. the HTTP/1 recogniser; matching is
+   outside the model).  Order as in process.rs: HTTP stage first -- a packet the TCP analyzer then rejects
+   (fragment, invalid flag combination) has already been consumed by the HTTP flow table and blanks the result;
+   such traces are outside the acceptance hypothesis (the property gives no verdict for that packet). *)
+From HN Require Import Base.Cache Model.HttpFlow Model.HttpAnalyzer Model.HttpGlue Proofs.HttpInstances Proofs.HttpExamples.
+From HN Require Model.HttpRecog.
+
+Theorem C20_trace_union_concrete :
+  forall (parse_req parse_resp : bytes -> option bytes) (db : list (bytes * list N)) (cap : N)
+         (c : cfg) (tr : list TcpAnalyzer.tcp_event) (st : TcpAnalyzer.tcp_state) (sh : http_state),
+  trace_accepts TcpAnalyzer.tcp_event TcpAnalyzer.tcp_state http_state (tcp_ustep db cap) (http_ustep parse_req parse_resp) tls_ufn c st sh tr ->
+  map Some (unified_run TcpAnalyzer.tcp_event TcpAnalyzer.tcp_state http_state (tcp_ustep db cap) (http_ustep parse_req parse_resp) tls_ufn c (st, sh) tr)
+  = spec_run_enabled TcpAnalyzer.tcp_event TcpAnalyzer.tcp_state http_state (tcp_ustep db cap) (http_ustep parse_req parse_resp) tls_ufn c st sh tr.
+Proof. exact trace_union_concrete. Qed.
+Check C20_trace_union_concrete :
+  forall (parse_req parse_resp : bytes -> option bytes) (db : list (bytes * list N)) (cap : N)
+         (c : cfg) (tr : list TcpAnalyzer.tcp_event) (st : TcpAnalyzer.tcp_state) (sh : http_state),
+  trace_accepts TcpAnalyzer.tcp_event TcpAnalyzer.tcp_state http_state (tcp_ustep db cap) (http_ustep parse_req parse_resp) tls_ufn c st sh tr ->
+  map Some (unified_run TcpAnalyzer.tcp_event TcpAnalyzer.tcp_state http_state (tcp_ustep db cap) (http_ustep parse_req parse_resp) tls_ufn c (st, sh) tr)
+  = spec_run_enabled TcpAnalyzer.tcp_event TcpAnalyzer.tcp_state http_state (tcp_ustep db cap) (http_ustep parse_req parse_resp) tls_ufn c st sh tr.
+Print Assumptions C20_trace_union_concrete.
+
+(* acceptance at frame level: the HTTP path rejects an IP frame whose TCP view is missing or whose next protocol is
+   not TCP (http_frame_class = HCErr); the TCP analyzer rejects what TcpExtract.process_frame rejects (a superset:
+   C20_tcp_ok_http_ok); the stateless TLS path never rejects *)
+Theorem C20_trace_union_concrete_frames :
+  forall (parse_req parse_resp : bytes -> option bytes) (db : list (bytes * list N)) (cap : N)
+         (c : cfg) (tr : list TcpAnalyzer.tcp_event) (st : TcpAnalyzer.tcp_state) (sh : http_state),
+  (http_en c = true -> forall e, In e tr -> http_frame_class (fst e) <> HCErr) ->
+  (tcp_en c = true -> forall e, In e tr -> TcpExtract.process_frame db (fst e) <> TcpExtract.Err) ->
+  map Some (unified_run TcpAnalyzer.tcp_event TcpAnalyzer.tcp_state http_state (tcp_ustep db cap) (http_ustep parse_req parse_resp) tls_ufn c (st, sh) tr)
+  = spec_run_enabled TcpAnalyzer.tcp_event TcpAnalyzer.tcp_state http_state (tcp_ustep db cap) (http_ustep parse_req parse_resp) tls_ufn c st sh tr.
+Proof. exact trace_union_concrete_frames. Qed.
+Check C20_trace_union_concrete_frames :
+  forall (parse_req parse_resp : bytes -> option bytes) (db : list (bytes * list N)) (cap : N)
+         (c : cfg) (tr : list TcpAnalyzer.tcp_event) (st : TcpAnalyzer.tcp_state) (sh : http_state),
+  (http_en c = true -> forall e, In e tr -> http_frame_class (fst e) <> HCErr) ->
+  (tcp_en c = true -> forall e, In e tr -> TcpExtract.process_frame db (fst e) <> TcpExtract.Err) ->
+  map Some (unified_run TcpAnalyzer.tcp_event TcpAnalyzer.tcp_state http_state (tcp_ustep db cap) (http_ustep parse_req parse_resp) tls_ufn c (st, sh) tr)
+  = spec_run_enabled TcpAnalyzer.tcp_event TcpAnalyzer.tcp_state http_state (tcp_ustep db cap) (http_ustep parse_req parse_resp) tls_ufn c st sh tr.
+Print Assumptions C20_trace_union_concrete_frames.
+
+Theorem C20_tcp_ok_http_ok : forall (db : list (bytes * list N)) (f : bytes),
+  TcpExtract.process_frame db f <> TcpExtract.Err -> http_frame_class f <> HCErr.
+Proof. exact tcp_ok_http_ok. Qed.
+Print Assumptions C20_tcp_ok_http_ok.
+
+(* satisfiable: everything enabled, matcher off: SYN, request in two segments, response *)
+Example C20_concrete_example :
+  ctor_ok c20_all = true /\
+  (forall e, In e c20_http_trace -> http_frame_class (fst e) <> HCErr) /\
+  (forall e, In e c20_http_trace -> TcpExtract.process_frame [] (fst e) <> TcpExtract.Err) /\
+  map shown_mask (unified_run TcpAnalyzer.tcp_event TcpAnalyzer.tcp_state http_state (tcp_ustep [] 8)
+                    (http_ustep HttpRecog.recog_req HttpRecog.recog_resp) tls_ufn c20_all ([], cache_new 8) c20_http_trace)
+  = [ [true; false; false; false; false; false; false; false];
+      [false; true; false; false; false; false; false; false];
+      [false; true; false; false; false; true; false; false];
+      [false; true; false; false; false; false; true; false] ].
+Proof. exact http_c20_example. Qed.
